@@ -62,7 +62,7 @@ def run_unit(unit, rlimit=None, timeout=600, extra=()):
         missing = []
         for u in res["undecided"]:
             m = re.search(r"no method named `(\w+)` found for (?:struct|reference) `&?(?:mut )?Uint<", u.get("message", "")) or \
-                re.search(r"no (?:function or )?associated (?:item|function) named `(\w+)` found for struct `Uint<", u.get("message", ""))
+                re.search(r"no (?:function or )?associated (?:item|function|function or constant) named `(\w+)` found for struct `Uint<", u.get("message", ""))
             if m:
                 missing.append(m.group(1))
         new = []
